@@ -18,6 +18,13 @@ def load_mutants():
     for fn in sorted(os.listdir(d)):
         if fn.endswith(".json"):
             ms += json.load(open(os.path.join(d, fn)))
+    # behaviour-preserving refactorings written by sub-agents (tools/neutralcheck.py): replayed as neutral patches
+    nd = os.path.join(HERE, "neutral")
+    if os.path.isdir(nd):
+        for name in sorted(os.listdir(nd)):
+            pf = os.path.join(nd, name, "patch.diff")
+            if os.path.exists(pf):
+                ms.append({"id": "neutral-" + name, "kind": "neutral", "property": "all", "patch": pf})
     return ms
 
 def run_one(m, keep=False):
@@ -27,7 +34,12 @@ def run_one(m, keep=False):
     try:
         dst = os.path.join(tmp, "repo")
         shutil.copytree(REPO, dst, ignore=shutil.ignore_patterns(".git"))
-        for e in m["edits"]:
+        if m.get("patch"):
+            pr = subprocess.run(["patch", "-p1", "--no-backup-if-mismatch", "-s", "-i", m["patch"]], cwd=dst, capture_output=True, text=True)
+            if pr.returncode != 0:
+                res.update(status="anchor-lost", detail=(pr.stdout + pr.stderr)[-300:])
+                return res
+        for e in m.get("edits", []):
             p = os.path.join(dst, e["file"])
             s = open(p).read()
             cnt = s.count(e["old"])
